@@ -115,6 +115,13 @@ class Model(HoloPyObject):
         dummy_scatterer = fields['_dummy_scatterer']
         scatterer_parameters = read_map(maps['scatterer'], parameters)
         scatterer = dummy_scatterer.from_parameters(scatterer_parameters)
+        if isinstance(dummy_scatterer, RigidCluster):
+            # from_parameters moves the spheres when rotation and
+            # translation are numbers; the model was built on the cluster
+            scatterer = RigidCluster(
+                dummy_scatterer.spheres.from_parameters(scatterer_parameters),
+                scatterer_parameters['translation'],
+                scatterer_parameters['rotation'])
         # the theory's own parameters (e.g. a lens angle prior) belong to
         # the theory, not to the model's constructor
         theory_parameters = read_map(maps['theory'], parameters)
